@@ -924,6 +924,11 @@ def has_small_element_arrays(d, seen=None):
             return has_small_element_arrays(t.decl, seen)
         return False
 
+    if isinstance(d, Function):
+        for f in d.fields:
+            if (f.arr is not None and min_size(f.typ) < 4) or tcheck(f.typ):
+                return True
+        return tcheck(d.result)
     if d.kind == "typedef":
         return tcheck(d.inner)
     for c in d.constructors:
